@@ -7,12 +7,14 @@ import (
 	"errors"
 	"fmt"
 	"net"
+	"runtime"
 	"strings"
 	"sync"
 	"sync/atomic"
 	"time"
 
 	"github.com/IrineSistiana/mosdns/v5/coremain"
+	"github.com/IrineSistiana/mosdns/v5/pkg/pool"
 	"github.com/IrineSistiana/mosdns/v5/pkg/query_context"
 	"github.com/IrineSistiana/mosdns/v5/pkg/verifpoint"
 	"github.com/IrineSistiana/mosdns/v5/plugin/executable/sequence"
@@ -27,6 +29,18 @@ import (
 // the scripted delays, and the primary paused at the schedule point between
 // its two signalling statements (hook verifpoint "fallback.primary.signalling").
 // Every scenario is also given to the model as the schedule it enforces.
+//
+// The threshold timer is borrowed from pkg/pool, which is process-wide: what one
+// call leaves in it is what a later call finds. So besides the grid of single
+// calls there are sequences of calls in one process: calls in which the timer
+// fires while nobody is waiting on it (the primary fails early and the secondary
+// works past the threshold; then possibly the caller's context ends), one after
+// the other on a single P or as a concurrent burst on all Ps, followed by calls
+// whose primary answers far inside the threshold - each judged by the same
+// predicate and replayed on the model as a call of its own. The pool itself is
+// driven through random borrow histories and compared with the model's timer.
+// (The harness module has the same `go` directive as mosdns, hence the same
+// timer-channel semantics.)
 
 func init() { props["C20"] = runC20 }
 
@@ -94,14 +108,33 @@ type res20 struct {
 	took       time.Duration
 }
 
+type scen20 struct {
+	kind    string // A B C D E F H
+	standby bool
+	p, s    string
+	pDelay  time.Duration // A, B: extra time the primary takes (still far inside the threshold)
+}
+
+// the calls made so far in this process, oldest first (the timer pool is process-wide)
+var hist20 []string
+
+func earlier20() []string {
+	h := hist20
+	if len(h) > 6 {
+		h = h[len(h)-6:]
+	}
+	return append([]string{}, h...)
+}
+
+func (sc scen20) String() string {
+	return fmt.Sprintf("%s(always_standby=%v primary=%s secondary=%s)", sc.kind, sc.standby, sc.p, sc.s)
+}
+
+var fails20 = []string{"none", "err", "errans"}
+
 func runC20(r *Run) {
 	outcomes := []string{"ans", "none", "err", "errans"}
-	type scen struct {
-		kind    string // A B C D
-		standby bool
-		p, s    string
-	}
-	var scens []scen
+	var scens []scen20
 	reps := r.N(2, 12)
 	for rep := 0; rep < reps; rep++ {
 		for _, k := range []string{"A", "B", "C", "D", "E"} {
@@ -111,24 +144,231 @@ func runC20(r *Run) {
 				}
 				for _, p := range outcomes {
 					for _, s := range outcomes {
-						scens = append(scens, scen{k, sb, p, s})
+						scens = append(scens, scen20{kind: k, standby: sb, p: p, s: s})
 					}
 				}
 			}
 		}
 	}
+	for rep := 0; rep < r.N(1, 4); rep++ {
+		for _, sb := range []bool{true, false} {
+			for _, p := range fails20 {
+				for _, s := range outcomes {
+					scens = append(scens, scen20{kind: "F", standby: sb, p: p, s: s})
+				}
+				scens = append(scens, scen20{kind: "H", standby: sb, p: p, s: outcomes[r.Rng.Intn(len(outcomes))]})
+			}
+		}
+	}
 	r.Rng.Shuffle(len(scens), func(i, j int) { scens[i], scens[j] = scens[j], scens[i] })
-
 	for _, sc := range scens {
+		runScen20(r, sc)
+	}
+
+	// ---- sequences of calls in one process (the threshold timer comes from a process-wide pool)
+	for i, nSeq := 0, r.N(8, 48); i < nSeq; i++ {
+		pin := r.Rng.Intn(2) == 0
+		procs := runtime.GOMAXPROCS(0)
+		if pin {
+			runtime.GOMAXPROCS(1) // one P: the pool hands the next call the timer the previous one released
+		}
+		if pin {
+			for k, n := 0, 1+r.Rng.Intn(3); k < n; k++ {
+				sc := scen20{kind: "F", standby: r.Rng.Intn(2) == 0, p: fails20[r.Rng.Intn(3)], s: outcomes[r.Rng.Intn(4)]}
+				if r.Rng.Intn(4) == 0 {
+					sc.kind = "H"
+				}
+				runScen20(r, sc)
+			}
+		} else {
+			n := (2 + r.Rng.Intn(2)) * procs
+			burst20(r, n, r.Rng.Intn(2) == 0, fails20[r.Rng.Intn(3)], outcomes[r.Rng.Intn(4)])
+		}
+		nv := 1 + r.Rng.Intn(2)
+		if !pin {
+			nv += 2
+		}
+		for k := 0; k < nv; k++ {
+			sc := scen20{kind: "B", p: "ans", s: "ans", pDelay: time.Duration(r.Rng.Intn(40)) * time.Millisecond}
+			if r.Rng.Intn(3) == 0 {
+				sc.s = outcomes[r.Rng.Intn(4)]
+			}
+			if r.Rng.Intn(2) == 0 {
+				sc.kind, sc.standby = "A", true
+			}
+			if r.Rng.Intn(4) == 0 {
+				sc.p = outcomes[r.Rng.Intn(4)]
+			}
+			runScen20(r, sc)
+		}
+		if pin {
+			runtime.GOMAXPROCS(procs)
+		}
+		r.Count("sequence")
+	}
+	pool20(r)
+
+	r.Finish("scenarios x {always_standby} x primary {answer, no answer, error} x secondary {answer, no answer, error}: A standby secondary finished first + in-time primary paused between its two signalling statements; B no standby + in-time primary paused there; C threshold passes while the primary works; D caller's context ends; E threshold counted from the start of the call; F primary fails at once and the secondary works past the threshold (the timer fires with nobody waiting on it); H the same and then the caller's context ends; each enforced on the real plugin with gated executables and the verifpoint hook and replayed as a schedule on the model; sequences of calls in one process (F/H calls one after the other on one P, or a concurrent burst of them on all Ps, then A/B calls whose primary answers 0-40 ms into a 5 s threshold), every call judged and replayed on its own; random borrow histories on the real pkg/pool timer pool against the model's pooled timer; every scenario is non-trivial")
+}
+
+// burst20 runs n concurrent calls on one fallback instance in which the primary fails at once and the
+// secondary works past the threshold.
+func burst20(r *Run, n int, standby bool, p, s string) {
+	plugins := map[string]any{}
+	m := coremain.NewTestMosdnsWithPlugins(plugins)
+	prim, sec := newExec20("primary", p, true), newExec20("secondary", s, false)
+	plugins["prim"], plugins["sec"] = prim, sec
+	const threshold = 15
+	fb, err := fallback.Init(coremain.NewBP("fb", m), &fallback.Args{Primary: "prim", Secondary: "sec", Threshold: threshold, AlwaysStandby: standby})
+	if err != nil {
+		fatal(err)
+	}
+	what := fmt.Sprintf("burst of %d concurrent F(always_standby=%v primary=%s secondary=%s) gomaxprocs=%d", n, standby, p, s, runtime.GOMAXPROCS(0))
+	earlier := earlier20()
+	hist20 = append(hist20, what)
+	ctx, cancel := context.WithCancel(context.Background())
+	defer cancel()
+	type ret struct {
+		err error
+		q   *query_context.Context
+	}
+	retCh := make(chan ret, n)
+	for i := 0; i < n; i++ {
+		q := new(dns.Msg)
+		q.SetQuestion("c20.example.", dns.TypeA)
+		qCtx := query_context.NewContext(q)
+		go func() { retCh <- ret{fb.(sequence.Executable).Exec(ctx, qCtx), qCtx} }()
+	}
+	for i := 0; i < 3000 && atomic.LoadInt32(&sec.calls) < int32(n); i++ {
+		time.Sleep(time.Millisecond)
+	}
+	started := atomic.LoadInt32(&sec.calls)
+	time.Sleep(3 * threshold * time.Millisecond)
+	close(sec.gate)
+	labels := "pFinish,pOp,pOp,sPickFailed,timerFire,sFinish,sSend,mRecv,mRecv"
+	if standby {
+		labels = "sStart,pFinish,pOp,pOp,timerFire,sFinish,sSend,mRecv,mRecv"
+		if s == "ans" {
+			labels = "sStart,pFinish,pOp,pOp,timerFire,sFinish,sWaitFailed,mRecv,mRecv"
+		}
+	}
+	want := "failed"
+	if s == "ans" {
+		want = "secondary"
+	}
+	for i := 0; i < n; i++ {
+		var got ret
+		res := "hang"
+		select {
+		case got = <-retCh:
+			res = result20(got.err, got.q)
+		case <-time.After(4 * time.Second):
+		}
+		if res != want {
+			r.Fail("the primary failed: the result must be the secondary's answer if it has one and 'both failed' otherwise",
+				map[string]any{"scenario": what, "call": i, "threshold_ms": threshold, "result": res, "secondaries_started": started, "with_earlier_calls_in_this_process": earlier})
+		}
+		r.Line(fmt.Sprintf("sched 0 %s %s %s", b01(s == "ans"), b01(standby), labels), fmt.Sprintf("%s secStarted=%s", res, b01(started > 0)))
+		r.Eval(fmt.Sprintf("burst/%v/%s/%s", standby, p, s), true)
+	}
+	time.Sleep(5 * time.Millisecond)
+	r.Count("scenario:burst")
+	r.Trace()
+}
+
+func result20(err error, qCtx *query_context.Context) string {
+	switch {
+	case err != nil && errors.Is(err, fallback.ErrFailed):
+		return "failed"
+	case err != nil:
+		return "ctx"
+	}
+	rr := qCtx.R()
+	switch {
+	case rr == nil || len(rr.Answer) != 1:
+		return "noanswer"
+	case rr.Answer[0].(*dns.A).A.Equal(net.IPv4(1, 1, 1, 1)):
+		return "primary"
+	case rr.Answer[0].(*dns.A).A.Equal(net.IPv4(9, 9, 9, 9)):
+		return "response-of-a-failed-executable"
+	}
+	return "secondary"
+}
+
+// pool20 drives pkg/pool's timer pool through random borrow histories (on one P, so that a released timer
+// is the next one handed out) and compares the timer GetTimer then hands out with the model's.
+func pool20(r *Run) {
+	procs := runtime.GOMAXPROCS(1)
+	defer runtime.GOMAXPROCS(procs)
+	for i, n := 0, r.N(12, 120); i < n; i++ {
+		var hist []string
+		for k, nb := 0, 1+r.Rng.Intn(4); k < nb; k++ {
+			b := ""
+			for j, l := 0, r.Rng.Intn(4); j < l; j++ {
+				b += string("fr"[r.Rng.Intn(2)])
+			}
+			d := time.Hour
+			if strings.Contains(b, "f") {
+				d = time.Millisecond
+			}
+			t := pool.GetTimer(d)
+			fired := false
+			for _, c := range b {
+				switch {
+				case c == 'f' && !fired:
+					for w := 0; w < 4000 && len(t.C) == 0; w++ {
+						time.Sleep(500 * time.Microsecond)
+					}
+					fired = true
+				case c == 'r':
+					select {
+					case <-t.C:
+						fired = true
+					default:
+					}
+				}
+			}
+			pool.ReleaseTimer(t)
+			if b == "" {
+				b = "-"
+			}
+			hist = append(hist, b)
+		}
+		t := pool.GetTimer(time.Hour)
+		tick := len(t.C) > 0
+		armed := t.Stop()
+		if tick {
+			r.Fail("a threshold timer handed out by pool.GetTimer(1h) is readable at once: a call that gets it sees its threshold as already passed",
+				map[string]any{"scenario": "pool", "with_earlier_calls_in_this_process": earlier20(), "borrows_before": strings.Join(hist, ";"), "legend": "f = the timer's duration (1 ms) passes while it is held, r = the holder receives from timer.C (non-blocking), - = neither; then ReleaseTimer"})
+			<-t.C // so that the later checks are independent of this one
+		}
+		pool.ReleaseTimer(t)
+		r.Line("pool "+strings.Join(hist, ";"), fmt.Sprintf("armed=%s tick=%s", b01(armed), b01(tick)))
+		r.Eval("pool/"+strings.Join(hist, ";"), true)
+		r.Count("scenario:pool")
+	}
+}
+
+func runScen20(r *Run, sc scen20) {
+	{
 		pAns, sAns := sc.p == "ans", sc.s == "ans"
+		earlier, procs := earlier20(), runtime.GOMAXPROCS(0)
+		hist20 = append(hist20, fmt.Sprintf("%s gomaxprocs=%d", sc, procs))
 		plugins := map[string]any{}
 		m := coremain.NewTestMosdnsWithPlugins(plugins)
-		prim := newExec20("primary", sc.p, false)
+		early := sc.kind == "F" || sc.kind == "H" // the primary fails at once
+		prim := newExec20("primary", sc.p, early)
 		sec := newExec20("secondary", sc.s, sc.kind == "B" || sc.kind == "C")
 		plugins["prim"], plugins["sec"] = prim, sec
 		threshold := 5000
 		if sc.kind == "C" {
 			threshold = 20
+		}
+		if early {
+			if pAns {
+				fatal(errors.New("c20: scenarios F and H are for a failing primary"))
+			}
+			threshold = 15
 		}
 		if sc.kind == "E" {
 			threshold = 200
@@ -140,6 +380,10 @@ func runC20(r *Run) {
 		// schedule point between the primary's two signalling statements
 		reached := make(chan struct{}, 4)
 		release := make(chan struct{})
+		if early {
+			close(release) // no pause between the primary's two signalling statements
+		}
+		var cancelAt time.Time
 		verifpoint.Set(func(name string) {
 			if name == "fallback.primary.signalling" {
 				reached <- struct{}{}
@@ -174,7 +418,7 @@ func runC20(r *Run) {
 			if !sAns {
 				labels = append(labels, "sSend")
 			}
-			time.Sleep(10 * time.Millisecond)
+			time.Sleep(10*time.Millisecond + sc.pDelay)
 			close(prim.gate)
 			labels = append(labels, "pFinish", "pOp")
 			waitCh(reached, 2*time.Second)
@@ -188,6 +432,7 @@ func runC20(r *Run) {
 				labels = append(labels, "sWaitDone")
 			}
 		case "B": // no standby; the primary is in time and pauses mid-signal; the secondary's Exec does not block
+			time.Sleep(sc.pDelay)
 			close(prim.gate)
 			labels = append(labels, "pFinish", "pOp")
 			waitCh(reached, 2*time.Second)
@@ -235,6 +480,33 @@ func runC20(r *Run) {
 			close(release)
 			close(prim.gate)
 			labels = append(labels, "pFinish", "pOp", "pOp")
+		case "F", "H": // the primary fails at once; the secondary (started for that reason, or standby) works past the
+			// threshold (15 ms), so the timer fires while nobody is waiting on it; H: then the caller's context ends
+			if sc.standby {
+				labels = append(labels, "sStart")
+			}
+			labels = append(labels, "pFinish", "pOp", "pOp")
+			if !sc.standby {
+				labels = append(labels, "sPickFailed")
+			}
+			for i := 0; i < 3000 && atomic.LoadInt32(&sec.calls) == 0; i++ {
+				time.Sleep(time.Millisecond)
+			}
+			time.Sleep(time.Duration(3*threshold+r.Rng.Intn(20)) * time.Millisecond)
+			labels = append(labels, "timerFire")
+			if sc.kind == "H" {
+				labels = append(labels, "mRecv", "ctxCancel", "mCtx")
+				cancelAt = time.Now()
+				cancel()
+				break
+			}
+			close(sec.gate)
+			labels = append(labels, "sFinish")
+			if sc.standby && sAns {
+				labels = append(labels, "sWaitFailed")
+			} else {
+				labels = append(labels, "sSend")
+			}
 		case "D": // the caller's context ends while both are working
 			if sc.standby {
 				labels = append(labels, "sStart")
@@ -254,7 +526,7 @@ func runC20(r *Run) {
 		stall := meter.Stop()
 		secStartedAtReturn := atomic.LoadInt32(&sec.calls) > 0
 		// the caller's receives: as many as the model needs to reach a result
-		if sc.kind != "D" {
+		if sc.kind != "D" && sc.kind != "H" {
 			labels = append(labels, "mRecv", "mRecv")
 		}
 		// let everything finish, then clean up
@@ -273,32 +545,22 @@ func runC20(r *Run) {
 		verifpoint.Set(nil)
 
 		res := res20{took: got.took, secStarted: secStartedAtReturn}
-		switch {
-		case timedOut:
+		if timedOut {
 			res.result = "hang"
-		case got.err != nil && errors.Is(got.err, fallback.ErrFailed):
-			res.result = "failed"
-		case got.err != nil:
-			res.result = "ctx"
-		default:
-			rr := qCtx.R()
-			if rr == nil || len(rr.Answer) != 1 {
-				res.result = "noanswer"
-			} else if rr.Answer[0].(*dns.A).A.Equal(net.IPv4(1, 1, 1, 1)) {
-				res.result = "primary"
-			} else if rr.Answer[0].(*dns.A).A.Equal(net.IPv4(9, 9, 9, 9)) {
-				res.result = "response-of-a-failed-executable"
-			} else {
-				res.result = "secondary"
-			}
+		} else {
+			res.result = result20(got.err, qCtx)
 		}
 		// in scenario C with a failing secondary the model needs two receives only if the first item is nil:
 		// the canonical schedule above handles it; trim a superfluous trailing mRecv if the model would not enable it.
 		desc := map[string]any{"scenario": sc.kind, "always_standby": sc.standby, "primary": sc.p, "secondary": sc.s, "threshold_ms": threshold,
 			"result": res.result, "secondary_started": res.secStarted, "took": res.took.String(), "schedule": strings.Join(labels, ",")}
+		if sc.pDelay > 0 {
+			desc["primary_answers_after"] = sc.pDelay.String()
+		}
+		desc["with_earlier_calls_in_this_process"], desc["gomaxprocs"] = earlier, procs
 		// ---- the property's own predicate
 		switch sc.kind {
-		case "A", "B": // the primary finished far inside the threshold
+		case "A", "B", "F": // the primary finished (A, B: answered or failed; F: failed) far inside the threshold
 			switch {
 			case pAns && res.result != "primary":
 				r.Fail("the primary answered within the threshold but its answer was not returned", desc)
@@ -331,6 +593,14 @@ func runC20(r *Run) {
 			if res.result != "ctx" || res.took > time.Second {
 				r.Fail("the call did not end (with the context's error) when the caller's context ended", desc)
 			}
+		case "H":
+			late := t0.Add(res.took).Sub(cancelAt)
+			switch {
+			case res.result == "ctx" && late > time.Second && stall > 500*time.Millisecond:
+				r.Count("timing-bound-not-asserted:machine-stalled")
+			case res.result != "ctx" || late > time.Second:
+				r.Fail("the call did not end (with the context's error) when the caller's context ended", desc)
+			}
 		}
 		out := fmt.Sprintf("%s secStarted=%s", res.result, b01(res.secStarted))
 		r.Line(fmt.Sprintf("sched %s %s %s %s", b01(pAns), b01(sAns), b01(sc.standby), strings.Join(labels, ",")), out)
@@ -338,5 +608,4 @@ func runC20(r *Run) {
 		r.Count("scenario:" + sc.kind)
 		r.Trace()
 	}
-	r.Finish("scenarios x {always_standby} x primary {answer, no answer, error} x secondary {answer, no answer, error}: A standby secondary finished first + in-time primary paused between its two signalling statements; B no standby + in-time primary paused there; C threshold passes while the primary works; D caller's context ends; each enforced on the real plugin with gated executables and the verifpoint hook and replayed as a schedule on the model; every scenario is non-trivial")
 }
